@@ -68,6 +68,10 @@ PROP = {  # subject prefix -> (properties, what failed before the repair)
  "nanops adds the partial sums of the pieces without looking for nulls": ("C20", "nanops.nansum(np.array([-2**62, -2**62, 5, 1]), n_threads=2) gave 6 instead of -2**63+6 (NumPy; n_threads=1): a piece's int64 partial sum equal to the sentinel was skipped by the second stage; found through the side condition sum_closed the Coq proof needed"),
  "keys converted to Python objects skip the jitted run detector": ("C02", "GroupBy(pa.chunked_array of booleans with a null) raised numba TypingError in the monotonic run detector"),
  "a boolean key is labelled the same way however it is factorized": ("C11 C03", "GroupBy(bool key, sort=False): whole factorization listed [False, True] whatever came first, chunk-wise factorization first-appearance; a one-valued boolean key listed the absent label under observed_only=False only when factorized whole"),
+ "mean of timestamps keeps whole-number arithmetic": ("C01 C07", "GroupBy.mean of datetime/timedelta values: one empty group (count 0) - or the null-key slot of transform=True - turned the whole column's division into a float one, rounding present-day timestamps to multiples of 256 ns (mean of one timestamp != that timestamp)"),
+ "margins of a mean of datetime / timedelta values": ("C01 C14", "GroupBy.mean(datetimes, margins=True) raised TypeError ('DatetimeArray' does not support 'sum'); 'All' rows of a timedelta mean were summed in floating point"),
+ "nanmean of integers is averaged in float64": ("C20", "nanops.nanmean of int64 values whose total leaves the 64-bit range (six epoch-nanosecond values) returned the wrapped total / n"),
+ "nanvar / nanstd use two passes": ("C20", "nanops.nanvar([1e8+1, 1e8+2, 1e8+3]) = 0.0, negative variances / nanstd NaN for epoch-second sized data, int64 squares wrapped: the one-pass formula sum(x^2) - sum(x)^2/n"),
  "apply returns an empty result": ("C05 C09", "median/apply with nothing selected raised IndexError (was known finding K2)"),
 }
 log = subprocess.run(["git", "-C", "/repo", "log", "--format=%h %s", "be63ad5..HEAD"], stdout=subprocess.PIPE).stdout.decode().splitlines()
